@@ -107,11 +107,11 @@ theorem inv1_step (s : St) (e : Ev) (h : Inv1 s) : Inv1 (step .repaired s e) := 
       rw [connectionLost_early s hb]
       constructor <;> simp_all [Phase.concluded, fire]
     · exact ⟨h1, h2, h3, h4, h5, h6, h7⟩
-  | helloReply =>
-    simp only [step]
+  | helloReply named =>
+    simp only [step, repaired_helloNeedsName, if_true]
     split
     · split
-      · constructor <;> simp_all [Phase.concluded, fire]
+      · cases named <;> (constructor <;> simp_all [Phase.concluded, fire])
       · exact ⟨h1, h2, h3, h4, h5, h6, h7⟩
     · exact ⟨h1, h2, h3, h4, h5, h6, h7⟩
   | helloError =>
@@ -262,13 +262,13 @@ theorem concluded_run (h : List Ev) : ∀ s : St, s.phase.concluded = true → (
 theorem concludes_step (s : St) (e : Ev) (hi : Inv1 s) (hc : concludes s e = true) :
     (step .repaired s e).phase.concluded = true := by
   cases e with
-  | helloReply =>
+  | helloReply named =>
     have hp : s.phase = .helloSent := by simpa [concludes] using hc
     have hh := hi.hello hp
-    simp only [step, hp, if_true]
+    simp only [step, hp, if_true, repaired_helloNeedsName]
     cases hcall : helloCall s.pending with
     | none => simp [hcall] at hh
-    | some c => simp [fire, Phase.concluded]
+    | some c => cases named <;> simp [fire, Phase.concluded]
   | helloError =>
     have hp : s.phase = .helloSent := by simpa [concludes] using hc
     have hh := hi.hello hp
@@ -294,5 +294,95 @@ theorem concludes_step (s : St) (e : Ev) (hi : Inv1 s) (hc : concludes s e = tru
     have hp : s.phase = .connecting ∧ s.remaining = [] := by simpa [concludes] using hc
     simp [step, hp.1, tryNext, hp.2, fire, Phase.concluded]
   | _ => simp [concludes] at hc
+
+/-- The event that concludes an unconcluded attempt fires the Deferred with the result that belongs to it. -/
+theorem conclude_fired (s : St) (e : Ev) (hi : Inv1 s) (hc : concludes s e = true) (hn : s.phase.concluded = false) :
+    (step .repaired s e).fired = [resultOf e] := by
+  have hf := hi.notYet hn
+  cases e with
+  | helloReply named =>
+    have hp : s.phase = .helloSent := by simpa [concludes] using hc
+    have hh := hi.hello hp
+    simp only [step, hp, if_true, repaired_helloNeedsName]
+    cases hcall : helloCall s.pending with
+    | none => simp [hcall] at hh
+    | some c => cases named <;> simp [fire, hf, resultOf]
+  | helloError =>
+    have hp : s.phase = .helloSent := by simpa [concludes] using hc
+    have hh := hi.hello hp
+    simp only [step, hp, if_true]
+    cases hcall : helloCall s.pending with
+    | none => simp [hcall] at hh
+    | some c => simp [fire, hf, resultOf]
+  | close =>
+    have ho : s.transportOpen = true := by simpa [concludes] using hc
+    have hb : s.busName = false := by
+      cases hbn : s.busName with
+      | false => rfl
+      | true =>
+        rcases hi.bus.mp hbn with h | h <;> simp [h, Phase.concluded] at hn
+    simp only [step, ho, if_true]
+    rw [connectionLost_early s hb]; simp [hf, fire, resultOf]
+  | authFailed =>
+    have hp : s.phase = .authenticating := by simpa [concludes] using hc
+    have hb : s.busName = false := by
+      cases hbn : s.busName with
+      | false => rfl
+      | true => have := hi.bus.mp hbn; simp_all
+    simp only [step, hp, if_true]
+    rw [connectionLost_early s hb]; simp [hf, fire, resultOf]
+  | attemptFails why =>
+    have hp : s.phase = .connecting ∧ s.remaining = [] := by simpa [concludes] using hc
+    simp [step, hp.1, tryNext, hp.2, fire, hf, resultOf]
+  | _ => simp [concludes] at hc
+
+/-- Once the attempt is over the cell never changes again. -/
+theorem fired_stable_step (s : St) (e : Ev) (hi : Inv1 s) (hc : s.phase.concluded = true) :
+    (step .repaired s e).fired = s.fired := by
+  have hnc : s.phase ≠ .connecting := fun h => by simp [h, Phase.concluded] at hc
+  have hna : s.phase ≠ .authenticating := fun h => by simp [h, Phase.concluded] at hc
+  have hnh : s.phase ≠ .helloSent := fun h => by simp [h, Phase.concluded] at hc
+  cases e with
+  | close =>
+    simp only [step]
+    split
+    · cases hbn : s.busName with
+      | false =>
+        have hl := hi.done hc
+        have hne : s.fired.isEmpty = false := by
+          cases hf : s.fired with
+          | nil => simp [hf] at hl
+          | cons a t => rfl
+        rw [connectionLost_early s hbn]; simp [hne]
+      | true => rw [connectionLost_ready_eq s hbn]; exact (lost3_basic s).2.1
+    · rfl
+  | reply serial ok =>
+    simp only [step]
+    split
+    · split <;> simp
+    · rfl
+  | expire serial =>
+    simp only [step]
+    split
+    · split <;> simp [St.emit]
+    · rfl
+  | proxyNotify p r =>
+    simp only [step]
+    split
+    · split
+      · split <;> simp
+      · rfl
+    · rfl
+  | authProgress => rfl
+  | _ => simp only [step] <;> split <;> simp_all [issueCall, makeProxy, makeProxyCbs]
+
+theorem fired_stable_run (h : List Ev) : ∀ s : St, Inv1 s → s.phase.concluded = true →
+    (run .repaired s h).fired = s.fired := by
+  induction h with
+  | nil => intro s _ _; rfl
+  | cons e t ih =>
+    intro s hi hc
+    simp only [run]
+    rw [ih _ (inv1_step s e hi) (concluded_step s e hc), fired_stable_step s e hi hc]
 
 end Txdbus.Client.Lifecycle
